@@ -325,6 +325,13 @@ func ErrnoOf(err error) int {
 // ---------------------------------------------------------------------------
 // control surface for checks
 
+// ResetIO restarts the numbering of ReadAt/WriteAt calls seen by IOScript.
+func (fs *FS) ResetIO() {
+	fs.mu.Lock()
+	fs.ioIdx = 0
+	fs.mu.Unlock()
+}
+
 // Arm marks that a request is outstanding (faults indexed by armed-call
 // number only strike while armed).
 func (fs *FS) Arm(on bool) {
